@@ -9,5 +9,5 @@ TypePts == {Pt(k, "wire", 0, FALSE, {}, r) : k \in {"iface", "siface", "ptr", "s
 CorePts == {Pt(k, "wire", 0, FALSE, {}, TRUE) : k \in {"iface", "siface", "ptr", "sptr"}} \cup {PtF("siface", f, TRUE) : f \in {"Mark", "Tick"}}
 PtLists == {<<a>> : a \in TypePts} \cup {<<a, b>> : a \in TypePts, b \in CorePts}
 \* enumerated by nested quantification: building the set of scenario records first is far slower
-MCInit == \E p \in Pops, l \in PtLists : InitWith([prov |-> p, pts |-> l, preset |-> FALSE])
+MCInit == \E p \in Pops, l \in PtLists, ex \in BOOLEAN : InitWith([prov |-> p, pts |-> l, preset |-> FALSE, extra |-> ex])
 =============================================================================
